@@ -180,8 +180,10 @@ class Env:
 
     def add_fact(self, terms, const):
         f = (tuple(sorted(terms.items(), key=repr)), const)
-        if f in self.facts or len(self.facts) >= 12:
+        if f in self.facts or len(self.facts) >= 12 or not terms:
             return self
+        if len(terms) == 1 and const >= 0 and all(v < 0 for v in terms.values()):
+            return self           # -x <= c with c >= 0: nothing about an unsigned quantity
         # a stronger fact over the same terms replaces a weaker one
         fs = set(self.facts)
         for g in self.facts:
@@ -256,7 +258,7 @@ class Access:
 
 class FxAnalyzer:
     def __init__(self, func, types, cap=CAP, soft=True, state_ids=None, entry_fields=None, callee_post=None,
-                 other_ptrs=None, state_rec=None):
+                 other_ptrs=None, state_rec=None, entry_facts=None, candidates=None):
         self.f, self.ty, self.cap = func, types, cap
         self.soft = soft           # use the value range of narrow unsigned types (sound for proofs; never the ground of a report)
         self.state_ids = state_ids or set()      # variables holding the pointer to the state structure
@@ -267,6 +269,9 @@ class FxAnalyzer:
         self.ktype = {}                          # env key -> C type (for the sign of unknown values)
         self.exit_fields = None                  # field -> hull of its values at the exits and at calls into the family
         self.exit_seen = False
+        self.entry_facts = entry_facts or ()     # relational family invariants ((field, coef).., const): sum <= const
+        self.candidates = candidates or ()       # relations between fields to test at the exits
+        self.cand_ok = {c: True for c in self.candidates}
         self.acc = {}              # (line, text) -> [verdicts..]
         self.detail = {}
         self.param_arr = {}
@@ -892,7 +897,24 @@ class FxAnalyzer:
                                                               if n.get("k") in ("Ref", "Member"))
             if op in ("+=", "-=") and self.lin_safe(val_e, env) is not None and env.get(("d", key)) is None:
                 derived = False       # x += e keeps x an interval quantity; the facts about the old x were dropped
+        moved = None
+        if op in ("+=", "-=") and env.facts:
+            le = self.lin_safe(val_e, env)
+            fv = self.fit(lhs, v)
+            if le is not None and key not in le[0] and fv is not None:
+                # x' = x + e: a fact about x holds for x' - e
+                moved = []
+                for terms, c in env.facts:
+                    cf = dict(terms).get(key)
+                    if cf is None:
+                        continue
+                    t2 = lin_add((dict(terms), 0), lin_scale(le, -cf if op == "+=" else cf))
+                    if len(t2[0]) <= max(2, len(terms)) and all(abs(v_) == 1 for v_ in t2[0].values()):
+                        moved.append((t2[0], c - t2[1]))
         env = env.kill(key).set(key, self.fit(lhs, v))
+        for t2, c2 in (moved or ()):
+            if t2:
+                env = env.add_fact(t2, c2)
         env = env.set(("d", key), (1, 1) if derived else None)
         if eq is not None:
             # key == l as two facts
@@ -943,6 +965,26 @@ class FxAnalyzer:
         v = iv_add(self.ival(ref, env), (d, d))
         return env.kill(ref["id"]).set(ref["id"], self.fit(ref, v))
 
+    def eval_split(self, e, env):
+        """environments after an expression statement; `x = c ? a : b` is evaluated once per arm under the arm's
+        condition, so that what the arms establish is not merged"""
+        x = e
+        while isinstance(x, dict) and x.get("k") == "Paren":
+            x = x["e"]
+        if isinstance(x, dict) and x.get("k") == "Bin" and x.get("op") == "=":
+            r = x["y"]
+            while isinstance(r, dict) and r.get("k") in ("Paren", "Cast") and not r.get("p"):
+                r = r["e"]
+            if isinstance(r, dict) and r.get("k") == "Cond" and not any(n.get("k") == "Call" for n in walk(r["c"])):
+                outs = []
+                for pol, arm in ((True, r["x"]), (False, r["y"])):
+                    e1 = self.assume(r["c"], pol, env)
+                    if e1 is not None:
+                        outs.append(self.effects(dict(x, y=arm), e1))
+                if outs:
+                    return outs
+        return [self.effects(e, env)]
+
     def call_effects(self, e, env):
         """a call that receives the state pointer may change every field; a member of the family leaves the fields
         inside the family invariant (and must be entered with them inside it: recorded like an exit)"""
@@ -983,11 +1025,24 @@ class FxAnalyzer:
                 break
         if post:
             for f_, v in post.items():
+                if f_ == "#facts":
+                    continue
                 if v is not None and v != TOP:
                     env = env.set(("f", f_), v)
+            for terms, c in post.get("#facts", ()):
+                env = env.add_fact({("f", f_): cf for f_, cf in terms}, c)
         return env
 
     def record_exit(self, env):
+        for cand in self.candidates:
+            if self.cand_ok[cand]:
+                terms, c = cand
+                l = ({("f", f_): cf for f_, cf in terms}, 0)
+                for f_, _ in terms:
+                    self.ktype.setdefault(("f", f_), "size_t")
+                ub = self.lin_eval(l, env)[1]
+                if ub is None or ub > c:
+                    self.cand_ok[cand] = False
         cur = {}
         for k, v in env.m.items():
             if isinstance(k, tuple) and k[0] == "f":
@@ -1209,8 +1264,10 @@ class FxAnalyzer:
         if kind == "eval":
             if check:
                 self.check_expr(node.e, env, node.line)
-            env2 = self.effects(node.e, env)
-            return [(s, env2) for _, s in node.succ]
+            outs = []
+            for env2 in self.eval_split(node.e, env):
+                outs.extend((s, env2) for _, s in node.succ)
+            return outs
         if kind == "decl":
             d = node.e
             if d.get("init") is not None:
@@ -1267,7 +1324,10 @@ class FxAnalyzer:
         for f_, v in self.entry_fields.items():
             if v is not None and v != TOP:
                 m[("f", f_)] = v
-        return Env(m)
+        env = Env(m)
+        for terms, c in self.entry_facts:
+            env = env.add_fact({("f", f_): cf for f_, cf in terms}, c)
+        return env
 
     def loop_heads(self, cfg):
         """(targets of DFS back edges, reverse postorder)"""
@@ -1381,8 +1441,9 @@ class FxAnalyzer:
                 outs = [(s, env) for _, s in node.succ]
             elif kind == "eval":
                 self.check_expr(node.e, env, node.line)
-                env2 = self.effects(node.e, env)
-                outs = [(s, env2) for _, s in node.succ]
+                outs = []
+                for env2 in self.eval_split(node.e, env):
+                    outs.extend((s, env2) for _, s in node.succ)
             elif kind == "decl":
                 d = node.e
                 env2 = env
